@@ -1,8 +1,10 @@
 package props
 
 import (
+	"context"
 	"encoding/json"
 	"fmt"
+	"sort"
 	"sync"
 	"sync/atomic"
 	"time"
@@ -78,8 +80,43 @@ func c18Content(c *core.Case) *core.Result {
 				endBefore[dd.Key] = uint64(len(w.b.Ops(dd.DUID)))
 			}
 			pubsBefore := w.b.MQ.NumPubs()
-			if _, sig, msg := w.sync(cl); sig != "" {
-				return verdict(c, "", sig, msg)
+			pusher := ""
+			// one request in five is a REST patch of a stored document: a push by the server's
+			// own patch client, announced like any other
+			var docKeys []string
+			if r.Intn(5) == 0 {
+				for _, dd := range w.b.Datatypes() {
+					if dd.CollectionNum == w.colNum && dd.Type == model.TypeOfDatatype_DOCUMENT.String() {
+						docKeys = append(docKeys, dd.Key)
+					}
+				}
+				sort.Strings(docKeys)
+			}
+			if len(docKeys) > 0 {
+				key := docKeys[r.Intn(len(docKeys))]
+				pusher = c18PatchCUID
+				target := fmt.Sprintf(`{"rest":"%s","n":%d}`, w.g.Tag(), r.Intn(1000))
+				c.Step("REST patch of %s to %s", key, target)
+				out := bed.Guard(15e9, func(ctx context.Context) error {
+					_, err := w.b.Svc.PatchDocument(ctx, &model.PatchMessage{Collection: "colA", Key: key, Json: target})
+					return err
+				})
+				if out.Panic != "" {
+					return c.Violation("server-panic", "PatchDocument panicked: %s", out.Panic)
+				}
+				if out.TimedOut {
+					return c.Inconclusive("PatchDocument: watchdog")
+				}
+				if out.Err != nil {
+					c.Count("diag_rest_patches_refused", 1)
+				} else {
+					c.Count("rest_patches", 1)
+				}
+			} else {
+				pusher = cl.Model.CUID
+				if _, sig, msg := w.sync(cl); sig != "" {
+					return verdict(c, "", sig, msg)
+				}
 			}
 			if !w.idle() {
 				return c.Inconclusive("idle")
@@ -120,8 +157,8 @@ func c18Content(c *core.Case) *core.Result {
 					return c.Violation("notification-without-push", "a notification was published on %s (%s) although the request stored no operation for that key", p.Topic, p.Payload)
 				}
 				got[key]++
-				if n.CUID != cl.Model.CUID || n.DUID != duids[key] || n.Sseq != want[key] {
-					return c.Violation("notification-content", "notification on %s carries %s, expected CUID %s DUID %s sseq %d", p.Topic, p.Payload, cl.Model.CUID, duids[key], want[key])
+				if n.CUID != pusher || n.DUID != duids[key] || n.Sseq != want[key] {
+					return c.Violation("notification-content", "notification on %s carries %s, expected CUID %s DUID %s sseq %d", p.Topic, p.Payload, pusher, duids[key], want[key])
 				}
 			}
 			for k := range want {
@@ -138,6 +175,9 @@ func c18Content(c *core.Case) *core.Result {
 	}
 	return c.Held()
 }
+
+// c18PatchCUID is the client id under which the server pushes the operations of a REST patch.
+const c18PatchCUID = "!@#$OrdaPatchAPI"
 
 // sureOp returns a call that is valid in every state of the type and always emits an operation.
 func sureOp(typ string, g *crdt.Gen) crdt.Op {
